@@ -6,6 +6,7 @@ Spec : `Sb/Spec/Crc.lean` (bit-serial reflected CRC-32, poly 0x04C11DB7, init 0,
 -/
 import Sb.Proofs.CrcLinear
 import Sb.Proofs.CrcWindow
+import Sb.Proofs.CrcTwoBits
 import Sb.Model.Container
 
 namespace Sb.C05
@@ -143,6 +144,68 @@ theorem detect_byte_after_field (mem : Bool) (feat c0 c1 c2 c3 : UInt8) (pre pos
     (hacc : init mem ([0x73, 0x6b, 0x79, 0x62, 2, feat, c0, c1, c2, c3] ++ (pre ++ [b] ++ post)) ≠ .error .ecorrupted) :
     init mem ([0x73, 0x6b, 0x79, 0x62, 2, feat, c0, c1, c2, c3] ++ (pre ++ [b'] ++ post)) = .error .ecorrupted :=
   detect_window_after_field mem feat c0 c1 c2 c3 pre [b] [b'] post hf (by simp) rfl (by simpa using hne) hacc
+
+theorem xorBytes_zeros (l : Bytes) : xorBytes l (zeros l.length) = l := by
+  induction l with
+  | nil => rfl
+  | cons a t ih =>
+    unfold xorBytes zeros at *
+    simp only [List.length_cons, List.replicate_succ, List.zipWith_cons_cons, List.cons.injEq]
+    exact ⟨by simp, ih⟩
+
+theorem xorBytes_append (l1 l2 e1 e2 : Bytes) (h : l1.length = e1.length) :
+    xorBytes (l1 ++ l2) (e1 ++ e2) = xorBytes l1 e1 ++ xorBytes l2 e2 := by
+  unfold xorBytes
+  exact List.zipWith_append h
+
+/-- the order of x modulo the generator polynomial is 2^32 - 1 (kernel computation, `Sb/Proofs/CrcPeriod.lean`) -/
+theorem generator_order (d : Nat) (hd0 : 0 < d) (hd : d < 4294967295) : step1^[d] e0 ≠ e0 :=
+  no_small_period d hd0 hd
+
+/-- **Two flipped bits in different bytes after the checksum field of an accepted file are reported as corrupted**,
+on both loading routes, whatever lies before, between (fewer than 2^28 bytes) and after them.  (Two bits in the same
+byte or within four consecutive bytes: `detect_window_after_field`; inside the field: `detect_in_field`.) -/
+theorem detect_two_bits_after_field (mem : Bool) (feat c0 c1 c2 c3 : UInt8) (pre mid post : Bytes) (x1 x2 : UInt8)
+    (a1 a2 : Fin 8) (hf : feat.toNat &&& Gen.SB_BINARY_FEATURE_CRC32 ≠ 0) (hmid : mid.length < 2 ^ 28)
+    (hacc : init mem ([0x73, 0x6b, 0x79, 0x62, 2, feat, c0, c1, c2, c3] ++ (pre ++ [x1] ++ mid ++ [x2] ++ post))
+      ≠ .error .ecorrupted) :
+    init mem ([0x73, 0x6b, 0x79, 0x62, 2, feat, c0, c1, c2, c3] ++
+      (pre ++ [x1 ^^^ UInt8.ofNat (2 ^ a1.val)] ++ mid ++ [x2 ^^^ UInt8.ofNat (2 ^ a2.val)] ++ post)) = .error .ecorrupted := by
+  rw [accept_rule mem feat c0 c1 c2 c3 _ hf]
+  rw [Ne, accept_rule mem feat c0 c1 c2 c3 _ hf, Ne, Classical.not_not] at hacc
+  rw [hacc]
+  -- both files with the field zeroed
+  have h1 : Spec.fileCrc ([0x73, 0x6b, 0x79, 0x62, 2, feat, c0, c1, c2, c3] ++ (pre ++ [x1] ++ mid ++ [x2] ++ post))
+      = Spec.crc 0 (([0x73, 0x6b, 0x79, 0x62, 2, feat, 0, 0, 0, 0] ++ pre) ++ [x1] ++ mid ++ [x2] ++ post) := by
+    unfold Spec.fileCrc zeroCrcField
+    simp
+  have h2 : Spec.fileCrc ([0x73, 0x6b, 0x79, 0x62, 2, feat, c0, c1, c2, c3] ++
+        (pre ++ [x1 ^^^ UInt8.ofNat (2 ^ a1.val)] ++ mid ++ [x2 ^^^ UInt8.ofNat (2 ^ a2.val)] ++ post))
+      = Spec.crc 0 (([0x73, 0x6b, 0x79, 0x62, 2, feat, 0, 0, 0, 0] ++ pre) ++ [x1 ^^^ UInt8.ofNat (2 ^ a1.val)] ++ mid
+          ++ [x2 ^^^ UInt8.ofNat (2 ^ a2.val)] ++ post) := by
+    unfold Spec.fileCrc zeroCrcField
+    simp
+  rw [h1, h2]
+  generalize ([0x73, 0x6b, 0x79, 0x62, 2, feat, 0, 0, 0, 0] ++ pre : Bytes) = A
+  -- the altered file is the original xor the two-bit pattern
+  have hx : A ++ [x1 ^^^ UInt8.ofNat (2 ^ a1.val)] ++ mid ++ [x2 ^^^ UInt8.ofNat (2 ^ a2.val)] ++ post
+      = xorBytes (A ++ [x1] ++ mid ++ [x2] ++ post)
+          (zeros A.length ++ [UInt8.ofNat (2 ^ a1.val)] ++ zeros mid.length ++ [UInt8.ofNat (2 ^ a2.val)] ++ zeros post.length) := by
+    rw [xorBytes_append _ _ _ _ (by simp [zeros]), xorBytes_append _ _ _ _ (by simp [zeros]),
+      xorBytes_append _ _ _ _ (by simp [zeros]), xorBytes_append _ _ _ _ (by simp [zeros]),
+      xorBytes_zeros, xorBytes_zeros, xorBytes_zeros]
+    rfl
+  rw [hx, crc_of_corrupted _ _ (by simp [zeros])]
+  intro h
+  have hz : crc 0 (zeros A.length ++ [UInt8.ofNat (2 ^ a1.val)] ++ zeros mid.length ++ [UInt8.ofNat (2 ^ a2.val)]
+      ++ zeros post.length) = 0 := by
+    have key : ∀ (x e : BitVec 32), x ^^^ e = x → e = 0 := by
+      intro x e hxe
+      have h3 := congrArg (x ^^^ ·) hxe
+      simp only [← BitVec.xor_assoc, BitVec.xor_self, BitVec.zero_xor] at h3
+      exact h3
+    exact key _ _ h.symm
+  exact crc_two_bits_ne A.length mid.length post.length a1 a2 hmid hz
 
 /-! ### non-vacuity -/
 
